@@ -93,7 +93,9 @@ def check_property(prop, tier, seed, jobs=None, write=True):
     items = ["fn:" + f for f in cfg.get("functions", [])] + ["lemma:" + l for l in cfg.get("lemmas", [])]
     timeout_ms = None
     reps = run_items(items, jobs, timeout_ms) if items else []
-    lock = load_lock().get(prop, [])
+    lock_all = load_lock()
+    lock = lock_all.get(prop, [])
+    locked_hashes = lock_all.get("$hashes", {})
     seen_keys = set()
     n_ob = n_proved = 0
     by_solver = {}
@@ -105,6 +107,12 @@ def check_property(prop, tier, seed, jobs=None, write=True):
                         "source_hash": r["source_hash"], "paths": r["paths"], "obligations": len(r["obligations"]),
                         "cover": r["cover"], "canary": r["canary"], "seconds": r["seconds"],
                         "message": r["message"].splitlines()[0] if r["message"] else ""})
+        if r["status"] == "error" and r["kind"] == "fn" and r.get("source_hash") and \
+                locked_hashes.get(r["name"]) not in (None, r["source_hash"]):
+            # the verifier failed on a function whose source differs from the one the sidecar was
+            # written for: the sidecar does not apply any more -> drift (decided by the bounded twin)
+            r["status"] = "drift"
+            r["message"] = "drift: source changed and the verifier could not process it: " + r["message"].splitlines()[0]
         if r["status"] == "error":
             status["error"].append(f"{r['item']}: {r['message']}")
         elif r["status"] == "drift":
@@ -251,7 +259,7 @@ def cmd_lock(args):
     never run by a check)"""
     from contracts.props import PROPS
     from pyvc.run import run_items
-    lock = {}
+    lock = {"$hashes": {}}
     for prop, cfg in sorted(PROPS.items()):
         items = ["fn:" + f for f in cfg.get("functions", [])] + ["lemma:" + l for l in cfg.get("lemmas", [])]
         if not items:
@@ -261,6 +269,8 @@ def cmd_lock(args):
         for r in reps:
             if r["status"] != "ok":
                 print("NOT LOCKING", prop, r["item"], r["status"], r["message"].splitlines()[0])
+            if r["kind"] == "fn" and r.get("source_hash"):
+                lock["$hashes"][r["name"]] = r["source_hash"]
             for o in r["obligations"]:
                 if o["status"] == "proved":
                     keys.add(o["key"])
